@@ -59,6 +59,22 @@ func buildIndex(repo string) (*index, error) {
 		return nil, err
 	}
 	for _, d := range dirs {
+		// only packages that declare an `IsReadOnly() bool` method can declare a node kind
+		// (sql.Node requires the method); skipping the rest keeps the big generated tables unparsed
+		ents, _ := os.ReadDir(d)
+		has := false
+		for _, en := range ents {
+			if en.IsDir() || !strings.HasSuffix(en.Name(), ".go") || strings.HasSuffix(en.Name(), "_test.go") {
+				continue
+			}
+			if b, err := os.ReadFile(filepath.Join(d, en.Name())); err == nil && strings.Contains(string(b), "IsReadOnly() bool") {
+				has = true
+				break
+			}
+		}
+		if !has {
+			continue
+		}
 		fset := token.NewFileSet()
 		pkgs, err := parser.ParseDir(fset, d, func(fi os.FileInfo) bool {
 			return !strings.HasSuffix(fi.Name(), "_test.go")
